@@ -109,7 +109,7 @@ m("scheduler-stop-lock-order", "schedulers/async_function_queue.rs",
 # ---- C10 / C12 / C13
 m("subject-complete-keeps-observers", "subjects/subject.rs", "  pub fn complete(&self) {\n    let obs = self.fetch_observers();\n    self.observers.write().unwrap().clear();", "  pub fn complete(&self) {\n    let obs = self.fetch_observers();", ["C10", "C06"])
 m("behavior-does-not-store-latest", "subjects/behavior_subject.rs", "    *self.last_item.write().unwrap() = Some(item.clone());\n", "", ["C10"])
-m("replay-stores-after-broadcast", "subjects/replay_subject.rs", "    (*self.items.write().unwrap()).push(item.clone());\n    self.subject.next(item);", "    self.subject.next(item.clone());\n    (*self.items.write().unwrap()).push(item);", ["C10", "C13", "C07"])
+m("replay-stores-after-broadcast", "subjects/replay_subject.rs", "    (*self.items.write().unwrap()).push(item.clone());\n    self.subject.next(item);", "    self.subject.next(item.clone());\n    (*self.items.write().unwrap()).push(item);", ["C10", "C12"])
 m("async-emits-every-item", "subjects/async_subject.rs", ".take_last(1)", ".take_last(2)", ["C10"])
 m("subject-unsubscribe-does-not-remove", "subjects/subject.rs", "            observers.remove(&serial);\n            observers.len()", "            observers.len().saturating_sub(1)", ["C10", "C12", "C06"])
 m("publish-connects-twice", "operators/publish.rs", "pub fn new(source: Observable<'a, Item>) -> Publish<'a, Item> {\n    Publish { sbj: Subject::<Item>::new(), source }", "pub fn new(source: Observable<'a, Item>) -> Publish<'a, Item> {\n    let p = Publish { sbj: Subject::<Item>::new(), source };\n    p.connect();\n    p", ["C13"])
